@@ -1545,3 +1545,88 @@ macro_rules! c09_auto_plan {
 }
 c09_auto_plan!(c09_auto_plan_dry_run, true, false);
 // (does not finish in 600-800 s: without a constant dry_run flag symex explores the spawn path -- json! job details) c09_auto_plan!(c09_auto_plan_nothing_new, false, true);
+
+// ---------------------------------------------------------------------------------------------------------
+// C08 / C04: the cut point of a run is the frame before the next message after the triggering message (or the head),
+// and the two resolvers -- over the bounded tail's message list and over the full replay -- agree on every history.
+// History [K0, K1, K2] with K in {message, other} (shape), symbolic increasing seqs, message ids symbolic over {a,b};
+// anchor id symbolic over {a,b,c}. The tail list is the faithful complete list of (seq,id) of the messages.
+// ---------------------------------------------------------------------------------------------------------
+macro_rules! c08_cutpoint {
+    ($name:ident, $m0:expr, $m1:expr, $m2:expr) => {
+        #[kani::proof]
+        #[kani::unwind(6)]
+        #[kani::stub(std::fmt::format, stub_fmt_format)]
+        #[kani::stub(alloc::string::ToString::to_string, stub_to_string_empty)]
+        fn $name() {
+            const PAT: [bool; 3] = [$m0, $m1, $m2];
+            let seqs: [u64; 3] = kani::any();
+            kani::assume(seqs[0] < seqs[1] && seqs[1] < seqs[2]);
+            let mut ids: [u8; 3] = kani::any();
+            kani::assume((ids[0] == b'a' || ids[0] == b'b') && (ids[1] == b'a' || ids[1] == b'b') && (ids[2] == b'a' || ids[2] == b'b'));
+            let idp = ids.as_mut_ptr();
+            let hist: core::mem::ManuallyDrop<[Event; 3]> = core::mem::ManuallyDrop::new(core::array::from_fn(|i| {
+                if PAT[i] { h_message(seqs[i], unsafe { idp.add(i) }) } else { h_run_spawned(seqs[i], unsafe { idp.add(i) }) }
+            }));
+            let mut anchor_b: [u8; 1] = kani::any();
+            kani::assume(anchor_b[0] == b'a' || anchor_b[0] == b'b' || anchor_b[0] == b'c');
+            let anchor = unsafe { core::str::from_utf8_unchecked(&anchor_b) };
+            let head = seqs[2];
+
+            // faithful tail list (stack-backed)
+            let mut tail_store: core::mem::ManuallyDrop<[(u64, String); 3]> =
+                core::mem::ManuallyDrop::new(core::array::from_fn(|i| (seqs[i], alias_str_raw(unsafe { idp.add(i) }, 1))));
+            let mut tail_list: [(u64, String); 3] = unsafe { core::ptr::read(&*tail_store as *const [(u64, String); 3]) };
+            // compact the messages to the front, keeping order
+            let mut n = 0usize;
+            let mut i = 0;
+            while i < 3 {
+                if PAT[i] {
+                    tail_list.swap(n, i);
+                    n += 1;
+                }
+                i += 1;
+            }
+            let from_tail = resolve_cutpoint_from_tail(&tail_list[..n], head, anchor);
+            let from_full = resolve_context_compile_cutpoint_full(&hist[..], anchor);
+
+            // reference
+            let mut a_idx: Option<usize> = None;
+            let mut j = 0;
+            while j < 3 {
+                if PAT[j] && ids[j] == anchor_b[0] && a_idx.is_none() {
+                    a_idx = Some(j);
+                }
+                j += 1;
+            }
+            match (a_idx, &from_tail, &from_full) {
+                (None, None, Err(_)) => {}
+                (Some(a), Some((mseq, fseq)), Ok((full_from, full_id))) => {
+                    let mut next: Option<u64> = None;
+                    let mut k = a + 1;
+                    while k < 3 {
+                        if PAT[k] && next.is_none() {
+                            next = Some(seqs[k]);
+                        }
+                        k += 1;
+                    }
+                    let want = match next { Some(s) => s - 1, None => head };
+                    assert!(*mseq == seqs[a], "tail resolver: anchor seq wrong");
+                    assert!(*fseq == want, "tail resolver: cut point is not the frame before the next message (or the head)");
+                    assert!(*full_from == want, "full resolver: cut point is not the frame before the next message (or the head)");
+                    assert!(*full_from >= seqs[a], "cut point below the triggering message");
+                    assert!(full_id.is_some(), "cut point without its message id");
+                }
+                _ => assert!(false, "the two cut-point resolvers disagree on whether the triggering message exists"),
+            }
+            kani::cover!(a_idx.is_some(), "anchor found");
+            kani::cover!(a_idx.is_none(), "anchor unknown");
+            core::mem::forget(from_full);
+            core::mem::forget(tail_list);
+        }
+    };
+}
+c08_cutpoint!(c08_cutpoint_mom, true, false, true);
+c08_cutpoint!(c08_cutpoint_mmo, true, true, false);
+c08_cutpoint!(c08_cutpoint_omm, false, true, true);
+c08_cutpoint!(c08_cutpoint_mmm, true, true, true);
